@@ -64,6 +64,21 @@ PROPS["C14"] = dict(
 )
 
 
+PROPS["C06"] = dict(
+    lean_targets=["Chihaya.Props.C06"],
+    props_files=["Chihaya/Props/C06.lean"],
+    streams=[dict(name="C06", quick=30000, thorough=800000)],
+    rule="cases: real frontend/http ParseAnnounce/ParseScrape on (a) URIs rendered from field records with shuffled parameters, per-byte escaping "
+         "choices (literal / %XX either case / +), duplicated keys, unrelated and non-ASCII keys, ';' separators, (b) every numeric field at each "
+         "boundary literal, (c) the source-address grid remote x spoof x ip/ipv4/ipv6 x header, (d) raw byte soup; option sets vary (numwant caps, scrape cap, "
+         "default above max); non-trivial = accepted requests and each distinct rejection reason (model tag), distinct op lines",
+    trusted=["modelled not verified: url.QueryUnescape (modelled in Query.unescape, compared through the stream), strings.ToLower on non-ASCII keys and "
+             "net.ParseIP / net.SplitHostPort (their results are computed by the harness independently of the code under test and passed to the model), strconv.ParseUint",
+             "net/http request-line and header syntax is outside the model: the parser is entered at RequestURI/Header/RemoteAddr"],
+    assumptions=[],
+)
+
+
 def run_gen(name, repo, lean, work, goenv):
     """regenerate lean/Chihaya/Gen/<Name>.lean from the current source"""
     tr = os.path.join(work, "tr")
@@ -118,7 +133,7 @@ def context_of(stream, ops, i):
     return list(reversed(ctx))
 
 
-STATELESS = {"benc", "vi", "cfg", "appr"}
+STATELESS = {"benc", "vi", "cfg", "appr", "http"}
 
 
 def oracle(pid, stream, op, impl, model):
